@@ -102,6 +102,28 @@ def side_effects(imports, audit, new_modules, canary):
     return eff
 
 
+_HTTP = {}
+
+
+def _http_client(fx):
+    """One real SimpleJSONRPCServer per fixture, started on first use (stopped at the end of run())."""
+    from vf import servers
+    if id(fx) not in _HTTP:
+        srv = servers.Srv("simple", "tcp", fx)
+        srv.start()
+        _HTTP[id(fx)] = (srv, servers.RawClient(srv))
+    return _HTTP[id(fx)][1]
+
+
+def _http_stop():
+    for srv, _ in _HTTP.values():
+        try:
+            srv.stop()
+        except Exception:  # noqa
+            pass
+    _HTTP.clear()
+
+
 # ---------------------------------------------------------------------------
 # (A) translation off: inert
 
@@ -116,10 +138,17 @@ def check_off(ctx, mon, value, side, fx_off, proxy_off, transport):
     if side == "loads":
         out, imports, audit, newm, canary = mon.run(lambda: jsonrpclib.loads(text, fx_off.config))
         decoded = out[1] if out[0] == "ok" else None
-    elif side == "server":
+    elif side in ("server", "http"):
         body = json.dumps({"jsonrpc": "2.0", "id": 1, "method": "echo", "params": [value]})
         mark = fx_off.log.mark()
-        out, imports, audit, newm, canary = mon.run(lambda: fx_off.dispatch(body))
+        if side == "http":
+            # the same request through a real HTTP server (request handler, do_POST) built on the same configuration
+            def post():
+                status, headers, payload = _http_client(fx_off).post(body)
+                return payload.decode("utf-8")
+            out, imports, audit, newm, canary = mon.run(post)
+        else:
+            out, imports, audit, newm, canary = mon.run(lambda: fx_off.dispatch(body))
         ran = fx_off.log.since(mark)
         decoded = ran[0][1]["args"][0] if len(ran) == 1 else None
         if out[0] == "ok" and len(ran) != 1:
@@ -142,6 +171,11 @@ def check_off(ctx, mon, value, side, fx_off, proxy_off, transport):
     if not gen.teq(decoded, plain):
         ctx.violate("off:decoded-differs-from-plain-json", case, {"decoded": gen.trepr(decoded)[:400]})
     eff = side_effects(imports, audit, newm, canary)
+    if side == "http":
+        # the harness's own client (sockets, lazily imported HTTP machinery) runs on the monitored thread: only what
+        # the translator would do is judged here - imports issued by the class translator, canaries imported / built
+        eff = [e for e in eff if e[0] in ("canary-imported", "canary-constructed")
+               or (e[0] == "import-attempt" and any(i[1] == "jsonrpclib.jsonclass" for i in e[1]))]
     if eff:
         ctx.violate("off:%s" % eff[0][0], case, {"effects": eff})
 
@@ -335,7 +369,7 @@ def run(ctx):
     for desc in descriptors:
         for extra in ({}, {"attr": 1}):
             for depth in (0, 1, 2, 3):
-                for side in ("loads", "server", "client"):
+                for side in ("loads", "server", "client", "http"):
                     n += 1
                     if not ctx.mine(n):
                         continue
@@ -349,7 +383,8 @@ def run(ctx):
         if isinstance(v, dict):
             v["x"] = payload
             payload = v
-        check_off(ctx, mon, payload, rng.choice(("loads", "server", "client")), fx_off, rng.choice(proxies_off), t_off)
+        check_off(ctx, mon, payload, rng.choice(("loads", "server", "client", "http") if i % 8 == 0 else
+                                                 ("loads", "server", "client")), fx_off, rng.choice(proxies_off), t_off)
     ctx.sample({"switch": "off", "payload": {"k": [1, {"__jsonclass__": ["vfcanarymod.Boom", []], "attr": 1}]}})
 
     # (B) on: exhaustive short names
@@ -422,6 +457,7 @@ def run(ctx):
                 check_server(ctx, mon, fx_on, body, "descriptor")
             check_client(ctx, mon, proxy_on, t_on, obj, "descriptor")
             check_client(ctx, mon, proxy_on, t_on, {"wrapped": [obj]}, "descriptor")
+    _http_stop()
     mon.close()
 
 
